@@ -120,12 +120,12 @@ _md_specials_pat = re.compile(r"^([-*+>]|#+)$")
 # Separate pattern to specifically find the numbered list cases for targeted escaping
 _md_numeral_pat = re.compile(r"^[0-9]+[.)]$")
 
-# Words that alone on a line are a thematic break or a setext heading underline
-# (`---`, `***`, `___`, `===`, `--`, `=`).
-_md_rule_pat = re.compile(r"^(-{2,}|=+|\*{3,}|_{3,})$")
+# Words that alone on a line, or followed by more of the same (`** *`, `_ _ _`), are a
+# thematic break or a setext heading underline (`---`, `***`, `___`, `===`, `--`, `=`).
+_md_rule_pat = re.compile(r"^(-{2,}|=+|\*{2,}|_+)$")
 
-# Words that alone on a line are a thematic break.
-_md_thematic_pat = re.compile(r"^(-{3,}|\*{3,}|_{3,})$")
+# Lines that are a thematic break, also when they follow a `-` list marker (`- --`).
+_md_thematic_pat = re.compile(r"^((-[ \t]*){2,}|(\*[ \t]*){3,}|(_[ \t]*){3,})$")
 
 # Words that open a fenced code block at the start of a line. (A backtick fence cannot have
 # another backtick later in the word; such a word is a code span.)
@@ -157,14 +157,24 @@ def markdown_escape_word(word: str) -> str:
     return word
 
 
-def markdown_escape_first_line(lines: list[str]) -> None:
+def markdown_first_line_is_rule(lines: list[str]) -> bool:
     """
     A paragraph may begin with a word like `---` (as in `--- and more`). If wrapping leaves
-    it alone on the paragraph's first line, it would become a thematic break (or a frontmatter
-    delimiter), so it is escaped. Modifies `lines` in place.
+    it alone on the paragraph's first line, or with more of the same (`-- -`), the line would
+    become a thematic break (or a frontmatter delimiter).
     """
-    if len(lines) > 1 and _md_thematic_pat.match(lines[0]):
-        lines[0] = markdown_escape_word(lines[0])
+    return len(lines) > 1 and bool(_md_thematic_pat.match(lines[0]))
+
+
+def markdown_escape_first_word(text: str) -> str:
+    """
+    Escape the first word of a paragraph (see `markdown_first_line_is_rule()`). The caller
+    wraps the result again, so that the escaped word is laid out with its real width.
+    """
+    match = re.match(r"\s*(\S+)", text)
+    if not match:
+        return text
+    return text[: match.start(1)] + markdown_escape_word(match.group(1)) + text[match.end(1) :]
 
 
 def wrap_paragraph_lines(
@@ -268,19 +278,23 @@ def wrap_paragraph(
     """
     Wrap lines of a single paragraph of plain text, returning a new string.
     """
-    lines = wrap_paragraph_lines(
-        text=text,
-        width=width,
-        replace_whitespace=replace_whitespace,
-        drop_whitespace=drop_whitespace,
-        splitter=word_splitter,
-        initial_column=initial_column + len_fn(initial_indent),
-        subsequent_offset=len_fn(subsequent_indent),
-        len_fn=len_fn,
-        is_markdown=is_markdown,
-    )
-    if is_markdown:
-        markdown_escape_first_line(lines)
+
+    def wrap_lines(text: str) -> list[str]:
+        return wrap_paragraph_lines(
+            text=text,
+            width=width,
+            replace_whitespace=replace_whitespace,
+            drop_whitespace=drop_whitespace,
+            splitter=word_splitter,
+            initial_column=initial_column + len_fn(initial_indent),
+            subsequent_offset=len_fn(subsequent_indent),
+            len_fn=len_fn,
+            is_markdown=is_markdown,
+        )
+
+    lines = wrap_lines(text)
+    if is_markdown and markdown_first_line_is_rule(lines):
+        lines = wrap_lines(markdown_escape_first_word(text))
     # Now insert indents on first and subsequent lines, if needed.
     if initial_indent and initial_column == 0 and len(lines) > 0:
         lines[0] = initial_indent + lines[0]
